@@ -307,6 +307,13 @@ pub fn configs(tier: crate::registry::Tier, _seed: u64) -> Vec<crate::registry::
 pub fn configs_c05a(tier: crate::registry::Tier, _seed: u64) -> Vec<crate::registry::Entry> {
     use crate::registry::{entry, Tier};
     let mut v = Vec::new();
+    // 8-9 crossing knots: products of two non-constant coefficients occur in the reduction only there
+    for (name, pd) in khref::cycle_catalogue().into_iter().chain(khref::big_catalogue().into_iter().filter(|x| x.0 == "6_2" || x.0 == "L5a1")) {
+        for mirror in [false, true] {
+            v.push(entry(Kh { ring: crate::props::c09::RingSel::Z, name, pd: pd.clone(), mirror, reduced: false, b: Some(if tier == Tier::Quick { 1 } else { 2 }), mode: Mode::Specialise }, 60, 200.0));
+            v.push(entry(Kh { ring: crate::props::c09::RingSel::Z, name, pd: pd.clone(), mirror, reduced: false, b: None, mode: Mode::ChainComplex }, 40, 150.0));
+        }
+    }
     for (name, pd) in khref::catalogue() {
         if pd.len() > 3 && tier == Tier::Quick {
             continue;
